@@ -188,6 +188,19 @@ func (o *orC01) onSQL(ev *SQLEvent) {
 		}
 		F = append(F, h)
 	}
+	// cascade replicas that are (still) in the list never count; when the quorum would be reached
+	// only with them, that is C16's subject as well
+	if m.primary["C16"] && len(F) < q {
+		nc := 0
+		for _, h := range A {
+			if sv := s.mysql.servers[h]; m.isCascade(h) && sv != nil && sv.Up && sv.ReadOnly {
+				nc++
+			}
+		}
+		if nc > 0 && len(F)+nc >= q {
+			m.violate("C16", "quorum", "promotion-quorum-reached-only-with-cascade-replicas", fmt.Sprintf("%s promoted %s: active=%v quorum=%d, frozen&contained HA members=%v, %d cascade replica(s) in the list", ev.Src, H.Name, A, q, F, nc))
+		}
+	}
 	asyncException := cfg.Async && cfg.AsyncAllowedLagMs > 0 && strings.Contains(m.switchRaw, `"cause":"auto"`)
 	m.probe("c01_promotion_checked")
 	if it.faults > 0 {
